@@ -5,6 +5,7 @@ per output line (`{"r": …}` or `{"error": …}`).  Pure function of the line.
 import Rpft.Drv.Cell
 import Rpft.Drv.Flow
 import Rpft.Drv.Campaign
+import Rpft.Drv.Infer
 open Lean Rpft.Drv
 
 def dispatch (j : Json) : Except String Json := do
@@ -13,6 +14,7 @@ def dispatch (j : Json) : Except String Json := do
   if op.startsWith "cell." || op.startsWith "str." then handleCell op j
   else if op.startsWith "flow." then handleFlow op j
   else if op.startsWith "campaign." || op.startsWith "trigger." then handleCampaign op j
+  else if op.startsWith "infer." then handleInfer op j
   else throw s!"unknown op {op}"
 
 partial def loop (hin : IO.FS.Stream) (hout : IO.FS.Stream) : IO Unit := do
